@@ -62,6 +62,16 @@ def observe(case):
             p.parse()
             if mode == "parse_twice":
                 p.parse()
+    except Exception as e:  # noqa: BLE001
+        obs["fails"] = True
+        obs["error"] = type(e).__name__
+        out = dict(k)
+        out["obs"] = obs
+        out["text"] = text
+        return out
+    # "makes parsing fail": only a failure of parse() itself counts as a rejection; a query that raises on an accepted
+    # text is an accepted text with an unreadable model
+    try:
         ch = p.build_decay_chains("B0sig", stable_particles=k["daughters"])["B0sig"]
         e = ch[0]
         obs["model"] = e["model"]
@@ -79,8 +89,9 @@ def observe(case):
         if len(ch) != 1 + len(k.get("extra_lines", [])):
             obs["daughters_ok"] = False
     except Exception as e:  # noqa: BLE001
-        obs["fails"] = True
+        obs["model"] = "?query-raised " + type(e).__name__
         obs["error"] = type(e).__name__
+        obs["daughters_ok"] = obs["params_ok"] = False
     out = dict(k)
     out["obs"] = obs
     out["text"] = text
